@@ -142,6 +142,7 @@ type c17obj struct {
 	kind  int
 	i1    *type1.BasicPrivateIssuer
 	i2    *type2.BasicPublicIssuer
+	i2b   *type2.BasicPublicIssuer
 	i3    *type3.RateLimitedIssuer
 	i5    *type5.BatchedPrivateIssuer
 	bi    *batched.BasicBatchedIssuer
@@ -187,8 +188,16 @@ func (e *c17env) mkObj(src *entropy.Source) *c17obj {
 		}
 		o.i1 = type1.NewBasicPrivateIssuer(k)
 		if e.kind == oBatch {
+			// two issuers per token type; requests go to either (distinct truncated key ids are
+			// ensured by walking the fixture pool)
 			o.i2 = type2.NewBasicPublicIssuer(fixtures.RSA(e.fix))
-			o.bi = batched.NewBasicBatchedIssuer(world.Adapter1{I: o.i1}, world.Adapter2{I: o.i2})
+			for d := 1; d < 8; d++ {
+				o.i2b = type2.NewBasicPublicIssuer(fixtures.RSA(e.fix + d))
+				if a, b := o.i2.TokenKeyID(), o.i2b.TokenKeyID(); a[31] != b[31] {
+					break
+				}
+			}
+			o.bi = batched.NewBasicBatchedIssuer(world.Adapter2{I: o.i2}, world.Adapter1{I: o.i1}, world.Adapter2{I: o.i2b})
 		}
 	case oIss2:
 		o.i2 = type2.NewBasicPublicIssuer(fixtures.RSA(e.fix))
@@ -295,7 +304,11 @@ func (e *c17env) mkArg(src *entropy.Source, helper *c17obj, op string, seed int6
 		if err != nil {
 			return nil, err
 		}
-		s2, err := type2.BasicPublicClient{}.CreateTokenRequest(ch, nonce, helper.i2.TokenKeyID(), helper.i2.TokenKey())
+		tgt := helper.i2
+		if seed%2 == 1 {
+			tgt = helper.i2b // served by the second type-2 issuer of the batch issuer
+		}
+		s2, err := type2.BasicPublicClient{}.CreateTokenRequest(ch, nonce, tgt.TokenKeyID(), tgt.TokenKey())
 		if err != nil {
 			return nil, err
 		}
